@@ -588,6 +588,9 @@ def c17_prop():
         mpmc_hist("c17", 17, 0, "ca", 5, 5),
         mpmc_hist("c17", 17, 1, "ca", 3, 5),
         H(MPMC, "step_c17_c2_dc", "step", est_s=60, est_gb=1.5, bounds="E-STEP mpmc capacity 2 drop/cancel: cancel() terminates the send future in every state"),
+        H(LIFE, "shared_stream_min_c17", "hold", replay=("shared_stream_min", 0), mask=P(17), est_s=200, est_gb=14, mem_gb=26, timeout=1500,
+          bounds="SharedStream (shared mpmc receiver as a stream): 0/1 buffered value, open/closed, two poll_next calls: items, None exactly when closed "
+                 "and drained, is_terminated() <=> None was yielded, None again afterwards (straight-line scenario, 4 cases decided symbolically)"),
         H(LIFE, "life_c17_state_n3", "hold", replay=("life_state", 0), mask=P(17), est_s=300, est_gb=8, timeout=1500,
           bounds="shared state-broadcast receive future: is_terminated() over handle clone/drop histories, 3 operations"),
     ]
@@ -966,3 +969,5 @@ def match_known(known, prop, harness, decoded, msg):
 
 DECODERS["mpmc_zst_fixedheap"] = decode_mpmc_zst
 DECODERS["mpmc_zst_array"] = decode_mpmc_zst
+
+DECODERS["shared_stream_min"] = lambda cfg, script: ["shared channel(1): try_send(1)=%s, close()=%s; into_stream(); poll_next twice" % (bool(script[0] & 1) if script else "?", bool(script[1] & 1) if len(script) > 1 else "?")]
